@@ -705,7 +705,10 @@ pub fn run(opts: &Opts) -> i32 {
     let nops = opts.u64("ops", if opts.thorough() { 150 } else { 70 }) as usize;
     let scratch = format!("{dir}/dev");
     std::fs::create_dir_all(&scratch).unwrap();
-    let cfgs = configs(opts.u64("extreme", 0) == 1);
+    let mut cfgs = configs(opts.u64("extreme", 0) == 1);
+    if opts.get("only") == Some("persistent") {
+        cfgs.retain(|c| c.persistent);
+    }
     let mut work = Vec::new();
     for (ci, c) in cfgs.iter().enumerate() {
         for j in 0..per_cfg {
